@@ -585,13 +585,43 @@ func c02(p *core.Program, r *core.Report) {
 	// ---- rule 5: callers of Push propagate its error
 	const r5 = "push-errors-propagated"
 	r.Rule(r5, "every call of a Push method in wkb, ewkb, geojson, wkt and geom propagates the error", 10)
-	for _, fn := range pkgFuncs(p, "", "encoding/wkb", "encoding/ewkb", "encoding/geojson", "encoding/wkt") {
+	pushPkgs := []string{"", "encoding/wkb", "encoding/ewkb", "encoding/geojson", "encoding/wkt"}
+	// a Push method value (mp.Push) handed to a function-typed parameter: calls through that parameter are Push calls,
+	// one per place that binds it
+	boundPush := map[*ssa.Parameter][]string{}
+	for _, fn := range pkgFuncs(p, pushPkgs...) {
+		for _, c := range eng.Calls(fn) {
+			callee := eng.StaticCallee(c)
+			if callee == nil {
+				continue
+			}
+			if o := callee.Origin(); o != nil {
+				callee = o
+			}
+			for i, a := range c.Common().Args {
+				mc, ok := a.(*ssa.MakeClosure)
+				if !ok || i >= len(callee.Params) {
+					continue
+				}
+				if bf, _ := mc.Fn.(*ssa.Function); bf != nil && bf.Name() == "Push$bound" {
+					boundPush[callee.Params[i]] = append(boundPush[callee.Params[i]], fmt.Sprintf("%s#%d", short(fn), ordinalOf(fn, c)))
+				}
+			}
+		}
+	}
+	for _, fn := range pkgFuncs(p, pushPkgs...) {
 		for _, s := range eng.ErrSites(fn) {
+			key := fmt.Sprintf("%s/%s#%d", short(fn), trimCallee(s.Callee), ordinalOf(fn, s.Call))
+			if prm, ok := s.Call.Common().Value.(*ssa.Parameter); ok && !s.Call.Common().IsInvoke() && len(boundPush[prm]) > 0 {
+				for _, b := range boundPush[prm] {
+					r.Check(s.OK, r5, key+"<-"+b, p.Pos(s.Call.Pos()), true, s.Reason, "error of Push is dropped: "+s.Reason)
+				}
+				continue
+			}
 			o := eng.CalleeObj(s.Call)
 			if o == nil || o.Name() != "Push" {
 				continue
 			}
-			key := fmt.Sprintf("%s/%s#%d", short(fn), trimCallee(s.Callee), ordinalOf(fn, s.Call))
 			r.Check(s.OK, r5, key, p.Pos(s.Call.Pos()), true, s.Reason, "error of Push is dropped: "+s.Reason)
 		}
 	}
